@@ -153,6 +153,11 @@ pub fn run(cfg: &Cfg) -> (&'static str, Report, String, String) {
             r.sample(|| format!("s={:?} all indices/pairs from {:?}...", strings[i], &hostile_indices(strings[i].len(), 1)[..5]));
         }
     });
+    // every lead-byte class: all strings of <= 2 (miri: 1) chars over LEADS + LEADS_HI3
+    let mut la: Vec<&str> = LEADS.to_vec();
+    la.extend(LEADS_HI3);
+    let lstrings = strings_upto(&la, cfg.by(1, 2, 3));
+    rep.merge(par_for(cfg, lstrings.len(), |i, r| check_string(r, &lstrings[i])));
     let nrand = cfg.by(10, 300, 4000);
     let rnd = par_for(cfg, nrand, |i, r| {
         let mut rng = Rng::new(cfg.seed.wrapping_mul(1_000_003).wrapping_add(i as u64));
